@@ -32,6 +32,9 @@ const (
 	KindNew     = "new"            // object creation
 	KindHelper  = "helper"         // call of a non-test method of the same class
 	KindForeign = "foreign-helper" // call of a static method of another test class
+	// KindMethodRef: a method reference (Thread::sleep, System.out::println, Assert::assertTrue) passed as an argument;
+	// kept in Method.Refs, never in Method.Calls
+	KindMethodRef = "method-reference"
 )
 
 // Call is one planted call site.
@@ -75,6 +78,7 @@ type Method struct {
 	DeclLine   int // line of the return type / name (annotations may be above)
 	EndLine    int
 	Calls      []Call
+	Refs       []Call // method references written in the body (not calls)
 }
 
 func (m *Method) HasAnno(name string) bool {
